@@ -6,7 +6,10 @@
    A run is any list of events  E1 a t w (actor a evaluates its wait at time t and commits to wake
    time w >= this throttle's own wake time: it may wait for other throttles as well),
    S1 a t (`start = _now()`, t >= w),  D1 a t n (the I/O returned n >= 0 bytes:
-   append(n, recorded start)), with non-decreasing times.  Ghost quantities of a run g:
+   append(n, recorded start)),  X1 a t (the operation of a ended WITHOUT append: the timed socket I/O
+   raised asyncio.TimeoutError / a connection error, or the task was cancelled during the throttle
+   wait or the I/O), with non-decreasing times.  Every theorem below quantifies over runs that
+   contain such aborted operations too.  Ghost quantities of a run g:
      g_T  all bytes ever appended          g_C  credit folded away by resets
      g_r  number of resets                 g_t0 first recorded start (the window origin)
      g_snap a  = g_T when a was evaluated  g_last a = size of a's last completed block
@@ -17,7 +20,7 @@
    the code guarantees   bytes <= L*(t - t0) + r/2 + blocks in flight,  r <= (t - t0)/R,
    i.e. a long-run rate of at most L + 1/(2R) bytes/s, NOT the literal L*(t - t0) of the property
    text (C15_literal_bound_refuted below; finding F15 in known_findings.json). *)
-From Coq Require Import ZArith QArith Qabs List Bool.
+From Coq Require Import ZArith QArith Qabs Qminmax List Bool.
 From Verif Require Import Lib.Sx Model.Throttle Proofs.Throttle Proofs.ThrottleWiring.
 From Verif Require Gen.Wiring.
 Import ListNotations.
@@ -177,6 +180,76 @@ Theorem C15_off_is_free : forall actors store c tr a t st' ac,
 Proof. exact off_is_free. Qed.
 Print Assumptions C15_off_is_free.
 
+(* ---- streams WITH read/write timeouts (StreamIO.read_timeout / write_timeout; server socket_timeout
+   and idle_timeout, client socket_timeout).  The throttle wait precedes the timed super() call:
+   whatever the timeout, the I/O of an operation starts exactly at the throttles' wake time; only the
+   socket I/O itself (duration d) runs against the timeout (timed_end).  Each such operation
+   (op_events) is a trace of the model, so every bound above holds for every timeout configuration;
+   an operation that times out accounts nothing. *)
+Theorem C15_timed_end_spec : forall tmo ts d,
+  match tmo with
+  | None => timed_end tmo ts d = (true, ts + d)
+  | Some T => (d < T -> timed_end tmo ts d = (true, ts + d)) /\
+              (T <= d -> timed_end tmo ts d = (false, ts + Qmax 0 T))
+  end.
+Proof. exact timed_end_spec. Qed.
+Print Assumptions C15_timed_end_spec.
+
+Theorem C15_timeout_does_not_move_start : forall store ac a tmo1 tmo2 now d n,
+  firstn 2 (op_events store ac a tmo1 now d n) = firstn 2 (op_events store ac a tmo2 now d n) /\
+  nth_error (op_events store ac a tmo1 now d n) 1 = Some (Start a (stream_wake store (ids_of ac) now)).
+Proof. exact op_start_ignores_timeout. Qed.
+Print Assumptions C15_timeout_does_not_move_start.
+
+Theorem C15_timed_op_in_model : forall actors st a ac tmo now d n,
+  nth_error actors a = Some ac -> nth_error (s_stat st) a = Some Idle ->
+  s_clock st <= now -> 0 <= d -> (0 <= n)%Z ->
+  exists st', run actors st (op_events (s_store st) ac a tmo now d n) = Some st' /\
+              nth_error (s_stat st') a = Some Idle /\
+              (fst (timed_end tmo (stream_wake (s_store st) (ids_of ac) now) d) = false ->
+               s_store st' = s_store st).
+Proof. exact op_accepted. Qed.
+Print Assumptions C15_timed_op_in_model.
+
+(* non-vacuity: limit 2 B/s; a 10-byte write, then a write whose wait is 5 s although the stream's
+   write timeout is 1 s (the wait is not cut), whose socket I/O (3 s) then times out after 1 s *)
+Example C15_example_timed_ops :
+  let acs := [mkA [(1, 0)]%nat true] in
+  let ac := mkA [(1, 0)]%nat true in
+  let st0 := init_sys [fresh (Some 2) 10; fresh None 10] acs 0 in
+  exists st1 st2 w te,
+    run acs st0 (op_events (s_store st0) ac 0 (Some 1) 0 0 10) = Some st1 /\
+    op_events (s_store st1) ac 0 (Some 1) 0 3 4 = [Eval 0 0; Start 0 w; Abort 0 te] /\
+    w == 5 /\ te == 6 /\
+    run acs st1 (op_events (s_store st1) ac 0 (Some 1) 0 3 4) = Some st2 /\
+    sum (get (s_store st2) 0%nat) = 10%Z.
+Proof.
+  cbv zeta. eexists. eexists. eexists. eexists.
+  split; [vm_compute; reflexivity|].
+  split; [vm_compute; reflexivity|].
+  split; [vm_compute; reflexivity|].
+  split; [vm_compute; reflexivity|].
+  split; [vm_compute; reflexivity|].
+  vm_compute. reflexivity.
+Qed.
+
+(* ---- the per-user limit over session HISTORIES: whatever sequence of logins, re-logins and
+   disconnects, two live sessions hold the same "user_global" object iff they are logged in as the
+   same user (so C15_sys_shared_bound applies to the sum of exactly that user's sessions).  Refuted
+   if entries were dropped at disconnect (c1 stays, c2 comes and goes, c3 logs in). *)
+Theorem C15_per_user_shared_over_histories : forall h c1 u1 o1 c2 u2 o2,
+  In (c1, (u1, o1)) (r_sess (hrun false h)) ->
+  In (c2, (u2, o2)) (r_sess (hrun false h)) ->
+  (u1 = u2 <-> o1 = o2).
+Proof. exact per_user_shared_over_histories. Qed.
+Print Assumptions C15_per_user_shared_over_histories.
+
+Theorem C15_per_user_pop_refuted :
+  exists o1 o3, In (1, (0, o1))%nat (r_sess (hrun true pop_history)) /\
+                In (3, (0, o3))%nat (r_sess (hrun true pop_history)) /\ o1 <> o3.
+Proof. exact per_user_pop_refuted. Qed.
+Print Assumptions C15_per_user_pop_refuted.
+
 (* ---- the literal bound of the property text is refuted by the rounding of the reset folding.
    Full statement that does NOT hold:
      forall ... grun (ginit th c) (tr ++ [S1 a t]) = Some g -> g_t0 g = Some z ->
@@ -256,6 +329,15 @@ Theorem C15_wiring :
                Gen.Wiring.stream_stores_dict_by_reference Gen.Wiring.stream_ops = true.
 Proof. vm_compute. reflexivity. Qed.
 Print Assumptions C15_wiring.
+
+(* ThrottleStreamIO.wait awaits `asyncio.wait(tasks)` with no timeout: it resumes when the LAST
+   throttle sleep ends (stream_wake = the max), independently of the stream's timeouts *)
+Theorem C15_wait_untimed : Gen.Wiring.stream_wait_untimed = true.
+Proof. reflexivity. Qed.
+
+(* nothing removes or replaces an entry of Server.throttle_per_user (hrun false is the model) *)
+Theorem C15_per_user_never_removed : Gen.Wiring.per_user_never_removed = true.
+Proof. reflexivity. Qed.
 
 Theorem C15_wiring_spec : forall sites inits guarded byref ops,
   check_wiring sites inits guarded byref ops = true ->
